@@ -2,11 +2,12 @@
 # tools/soak.sh <tier> <seed>... : run every check with each seed on the current tree; a summary line per run.
 # (development aid: confirms the checks stay quiet on the unchanged tree under other seeds / the thorough tier)
 tier=$1; shift
-mkdir -p /verif/build/soak
+V=$(dirname "$(dirname "$(realpath "$0")")")      # the copy of /verif this script lives in (a scratch copy can be soaked while /verif is edited)
+mkdir -p $V/build/soak
 for seed in "$@"; do
   for p in ${SOAK_PROPS:-C01 C02 C03 C04 C05 C06 C07 C08 C09 C10 C11 C12 C13 C14 C15 C16 C17 C18 C19 C20}; do
     s=$(date +%s)
-    VERIF_SEED=$seed /verif/check $p --tier $tier > /verif/build/soak/$p.$tier.$seed.log 2>&1; rc=$?
-    echo "$p tier=$tier seed=$seed rc=$rc $(( $(date +%s) - s ))s $(grep -c '^VIOLATION' /verif/build/soak/$p.$tier.$seed.log) violations"
+    VERIF_SEED=$seed $V/check $p --tier $tier > $V/build/soak/$p.$tier.$seed.log 2>&1; rc=$?
+    echo "$p tier=$tier seed=$seed rc=$rc $(( $(date +%s) - s ))s $(grep -c '^VIOLATION' $V/build/soak/$p.$tier.$seed.log) violations"
   done
 done
